@@ -15,4 +15,6 @@ if [ ! -f "$d/Cargo.toml" ]; then
 fi
 cd "$d"
 F=""; [ -n "$feat" ] && F="--features $feat"
+# memory watchdog: CBMC on serde/Arc-heavy code can eat every byte of RAM (no swap here)
+ulimit -v ${KANI_MEM_KB:-20000000}
 CARGO_NET_OFFLINE=true timeout ${KANI_TIMEOUT:-1500} cargo kani $F --harness "$h" "$@" 2>&1
